@@ -61,7 +61,14 @@ func (hs *clientHandshakeStateTLS13) handshake() error {
 
 	// Consistency check on the presence of a keyShare and its parameters.
 	if hs.keyShareKeys == nil || (hs.keyShareKeys.ecdhe == nil && hs.keyShareKeys.mlkemEcdhe == nil) || len(hs.hello.keyShares) == 0 { // [uTLS] a hybrid share alone is enough
-		return c.sendAlert(alertInternalError)
+		// [uTLS] A spec may send an empty client_shares vector, or only a GREASE
+		// share, to request a HelloRetryRequest (RFC 8446, Section 4.2.8): the key
+		// is then generated for the group the server asks for. A ServerHello that
+		// selects a share this hello did not send is refused further down.
+		utlsNoShare := hs.uconn != nil && hs.uconn.clientHelloBuildStatus == BuildByUtls && hs.keyShareKeys != nil
+		if !utlsNoShare {
+			return c.sendAlert(alertInternalError)
+		}
 	}
 
 	if err := hs.checkServerHelloOrHRR(); err != nil {
